@@ -421,7 +421,7 @@ def run_shards_limited(ctx, shards, workers=3, timeout=900):
 def ciq_key(spec, kind):
     return {"check": "ciq", "call": spec["call"], "op": spec["op"], "fail": fail_class(kind), "detail": kind,
             "illcond": float(spec["kappa"]) >= 1e3, "batch": len(spec["batch"]), "lhs": bool(spec.get("lhs")),
-            "inverse": bool(spec.get("inverse"))}
+            "inverse": bool(spec.get("inverse")), "vec": bool(spec.get("rhs_vec"))}
 
 
 def to_cols(x, B, n, t):
@@ -431,6 +431,10 @@ def to_cols(x, B, n, t):
 
 def ciq_settings_lit(st):
     return "(@MkSettings float %d %s %s)" % (st["max_cg"], fl(st["tol"]), fl(ZERO_THR))
+
+
+class ShapeFail(Exception):
+    pass
 
 
 def run_ciq_one(spec):
@@ -461,9 +465,18 @@ def run_ciq_one(spec):
                         qcn_lit(solves.to(F64).reshape(Nq, B, n, t).permute(0, 1, 3, 2).reshape(Nq, B * t, n)),
                         cols_lit(to_cols(no_shift, B, n, t)))
             elif spec["call"] == "sim":
+                vec = bool(spec.get("rhs_vec"))
+                rarg = rhs.reshape(n) if vec else rhs           # 1-D rhs (built without batch dimensions, t = 1)
                 with S.CiqRecorder() as rec:
-                    out = op.sqrt_inv_matmul(rhs, lhs) if lhs is not None else op.sqrt_inv_matmul(rhs)
+                    out = op.sqrt_inv_matmul(rarg, lhs) if lhs is not None else op.sqrt_inv_matmul(rarg)
                 ncalls = len(rec.calls)
+                if vec:
+                    # a 1-D rhs gives a result without the column dimension: (*batch, n) / (*batch, o)
+                    r0 = out[0] if lhs is not None else out
+                    exp = list(batch) + [lhs.shape[-2] if lhs is not None else n]
+                    if list(r0.shape) != exp:
+                        raise ShapeFail("sqrt_inv_matmul with a 1-D rhs returned shape %s, expected %s" % (list(r0.shape), exp))
+                    out = (r0.unsqueeze(-1), out[1]) if lhs is not None else r0.unsqueeze(-1)
                 twice = None
                 if lhs is None:
                     twice = op.sqrt_inv_matmul(out)
@@ -500,6 +513,9 @@ def run_ciq_one(spec):
                         ciq_settings_lit(st), name, n, Bp, cols_lit(c["rhs"].to(F64).reshape(Bp, n, 1)),
                         tab_lit(c["shifts"].to(F64).reshape(Nq + 1, Bp)), tab_lit(c["weights"].to(F64).reshape(Nq, Bp)),
                         fl(1e-25), fl(1e-9), cols_lit(samples.to(F64).reshape(Bp, n, 1)))
+        except ShapeFail as ex:
+            fails = [("shape", str(ex))]
+            lit = None
         except Exception as ex:  # noqa
             import traceback
             fails = [("raises", "%s raised %s: %s" % (spec["call"], type(ex).__name__, str(ex)[:160]))]
@@ -522,7 +538,8 @@ def run_ciq_cases(ctx, quick):
             cases.append({"name": "q%d" % spec["cell"], "spec": spec, "level": 1, "tol": 1e-9, "lit": lit, "defs": defs,
                           "direct_failed": bool(fl_), "kind": "ciq",
                           "sig": [spec["op"], spec["call"], spec["batch"], spec["t"], spec.get("lhs"), spec.get("inverse"),
-                                  spec["n"], spec["fam"], spec.get("set_nq"), spec.get("set_tol"), spec.get("rhs_batch")]})
+                                  spec["n"], spec["fam"], spec.get("set_nq"), spec.get("set_tol"), spec.get("rhs_batch"),
+                                  bool(spec.get("rhs_vec"))]})
     return cases, fails, cnt
 
 
